@@ -14,7 +14,7 @@ import time
 
 ROOT = os.path.dirname(os.path.dirname(os.path.abspath(__file__)))
 sys.path.insert(0, os.path.join(ROOT, "verus"))
-CACHE = os.path.join(ROOT, ".cache", "verus")
+CACHE = os.path.join(os.environ.get("VERIF_WORK", ROOT), ".cache", "verus")
 EXTRACT = os.path.join(ROOT, "tools", "extract", "target", "release", "extract")
 REPO = os.environ.get("VERIF_REPO", "/repo")
 RLIMIT = os.environ.get("VERIF_RLIMIT", "50")
